@@ -109,7 +109,8 @@ func ListDir(dir string) []os.FileInfo {
 // whether it should be zipped(true) or not(false).
 // The recursive param indicates whether sub-folders should be added recursively or not
 func ZipFolder(srcDir, destFile string, testFunc func(string) bool, recursive bool) error {
-	srcDir = ensureDirName(srcDir)
+	// filepath.Walk reports cleaned paths: everything below is compared with, and cut off, the cleaned spelling
+	srcDir = filepath.Clean(srcDir)
 	f, err := os.Create(destFile)
 	if err != nil {
 		return fmt.Errorf("ZipFolder: could not create %s for write, err=%w", destFile, err)
@@ -130,16 +131,17 @@ func ZipFolder(srcDir, destFile string, testFunc func(string) bool, recursive bo
 			return nil
 		}
 
-		if !recursive {
-			dir, _ := filepath.Split(path)
-			dir = ensureDirName(dir)
-			if dir != srcDir {
-				// skipping subfolders
-				return nil
-			}
+		rel, err := filepath.Rel(srcDir, path)
+		if err != nil {
+			return fmt.Errorf("ZipFolder: could not make %s relative to %s, err=%w", path, srcDir, err)
 		}
 
-		dstFileName := path[len(srcDir):]
+		if !recursive && filepath.Dir(rel) != "." {
+			// skipping subfolders
+			return nil
+		}
+
+		dstFileName := string(filepath.Separator) + rel
 		out, err := w.Create(dstFileName)
 		if err != nil {
 			return fmt.Errorf("ZipFolder: could not write %s into %s, err=%w", path, dstFileName, err)
